@@ -475,7 +475,8 @@ class AbsEval(ConstEval):
         except BuiltinRaised as ex:
             raise AbsRaise(ex.cls, str(ex))
         except NotConstant as ex:
-            if str(ex).startswith("call of <opaque external ") and self.__dict__.get("external_calls_opaque"):
+            if str(ex).startswith("call of <opaque external ") and self.__dict__.get("external_calls_opaque") and not self._active:
+                # (not while a module body is being evaluated: module-level names bound to library objects keep their defining statement, e.g. compiled patterns)
                 # a library constructor / function (asyncio.Future(), ...): an unknown library value with no effect on repository objects
                 return Opaque("external " + str(ex)[len("call of <opaque external "):].rstrip(">") + "()")
             if "opaque argument" in str(ex) or "builtin failed" in str(ex):
@@ -641,6 +642,14 @@ class AbsEval(ConstEval):
             return _typed(Res(name, *args), {"Decimal": "Decimal", "abs": pytype_of(a0), "round": "int" if len(args) == 1 else "float"}.get(name, name))
         if name in ("float", "int") and args and (a0 is None or isinstance(a0, AObj)):
             raise AbsRaise("TypeError", f"{name}() of {a0!r}")
+        if name == "bool" and len(args) == 1 and isinstance(a0, AObj) and not kw:
+            # truth of an object: its __bool__ / __len__ when the class defines one, else True
+            if a0.cls_key is not None:
+                for mn_ in ("__bool__", "__len__"):
+                    bm = self.M.find_method(a0.cls_key, mn_)
+                    if bm is not None:
+                        return bool(self.call_func(FuncRef(bm.mod, bm.node), [a0]))
+            return True
         if name == "len" and len(args) == 1:
             if isinstance(a0, Res):
                 return _typed(Res("len", a0), "int")
